@@ -24,6 +24,7 @@
 (*              context a mutation of one side that does not go through a  *)
 (*              reference is not visible on the other side, in an aliasing *)
 (*              context (or through a reference field) both sides agree    *)
+(*              (the harness turns c.same into a pointer-equality probe)   *)
 (*   CtxOK      every copying context is discriminated: some scenario of   *)
 (*              it predicts differently when that context's copy is        *)
 (*              skipped (so the scenario set can see a missing clone)      *)
@@ -329,5 +330,5 @@ Emit == (row # NoRow) =>
   IN /\ RowOK(c, sc)
      /\ CSVWrite("%1$s", <<ToJson([s |-> ShapeOf(unit), v |-> Variants[unit[2]], c |-> c.n, k |-> c.kind,
                                  side |-> row[1], w |-> row[2], path |-> PathOf(c, row),
-                                 pt |-> c.pt, pred |-> sc.pred, base |-> sc.base, alt |-> sc.alt, nt |-> sc.nt, through |-> sc.through])>>, UnitFile)
+                                 pt |-> c.pt, same |-> c.same, pred |-> sc.pred, base |-> sc.base, alt |-> sc.alt, nt |-> sc.nt, through |-> sc.through])>>, UnitFile)
 =============================================================================
